@@ -1,12 +1,12 @@
 #!/bin/sh
-# Offline setup: warm the Kani build of vibrato's dependencies so that checks only re-translate
-# vibrato and the harness crate.  Nothing is fetched.
+# Offline setup: checks the tools and warms the Kani build of vibrato's dependencies so that each
+# check only re-translates vibrato and the harness crate.  Nothing is fetched.
 set -e
 cd "$(dirname "$0")"
 export CARGO_NET_OFFLINE=true
 mkdir -p .work evidence
-cp /repo/Cargo.lock kani/Cargo.lock
-[ -d gen ] && cp /repo/Cargo.lock gen/Cargo.lock || true
 command -v cargo-kani >/dev/null || { echo "cargo-kani missing"; exit 1; }
 command -v cbmc >/dev/null || { echo "cbmc missing"; exit 1; }
+command -v goto-instrument >/dev/null || { echo "goto-instrument missing"; exit 1; }
+./check --warm
 echo "setup ok"
